@@ -31,7 +31,7 @@ type Sink struct {
 	RawEvents []*gostatsd.Event
 	Tags      int
 	notify    chan struct{}
-	// Gate, when non-nil, is received from before DispatchEvent returns (lets a harness hold deliveries).
+	gate      chan struct{}
 	WaitCalls int32
 }
 
@@ -55,7 +55,20 @@ func (s *Sink) DispatchMetricMap(ctx context.Context, mm *gostatsd.MetricMap) {
 	s.poke()
 }
 
+// SetGate makes DispatchEvent block until the gate is closed (nil removes it): a downstream that is busy.
+func (s *Sink) SetGate(g chan struct{}) {
+	s.mu.Lock()
+	s.gate = g
+	s.mu.Unlock()
+}
+
 func (s *Sink) DispatchEvent(ctx context.Context, e *gostatsd.Event) {
+	s.mu.Lock()
+	g := s.gate
+	s.mu.Unlock()
+	if g != nil {
+		<-g
+	}
 	c := CopyEvent(e)
 	s.mu.Lock()
 	s.Events = append(s.Events, c)
